@@ -20,6 +20,28 @@ Supported subset
                np.logical_and, np.copy, float, max, min, self.category_distance, np.exp, np.multiply, np.prod,
                `sum(w_[-1] for w_ in self.W)`, `v ** 2`, `w[a:b]`, `w[-k]`, dyadic float constants
 Types are inferred bottom-up: S (scalar), V (vector), N (the natural number dim_).
+
+Binder names are part of the statement.  Everything a generated definition reads from a *keyed* source gets a binder
+whose NAME is derived from the key, and `GenSpec.lean` passes these binders BY NAME (`(p_beta := beta)`), so a source
+change that reads a different key of the same type renames the binder and the application no longer elaborates:
+
+  Python read                     binder                        kind
+  ------------------------------  ----------------------------  ---------------------------------------------------
+  params["k"]                     p_k : α   (List α if k is in VECTOR_PARAMS)      hyper-parameter
+  cache["k"]                      c_k : α                                          cache entry written by category_choice
+  self.dim_ / self.dim_original   s_dim_ / s_dim_original : Nat                    attribute of the model (ATTRS)
+  self.<any other attribute>      Unsupported
+  self.params["k"], x.params["k"] Unsupported  (no translated kernel may read the model's own hyper-parameters: the
+                                  caller decides which dictionary a kernel sees, e.g. match tracking passes a modified one)
+  np.sqrt / np.exp / self.W       sqrt, exp : α → α / allW : List (List α)         external, not translated
+  positional parameters i, w, …   i_, w_, … : List α   (in the order of the Python signature: positional in Python,
+                                  positional in Lean)
+
+The ORDER of the key-derived binders carries no meaning: externals first, then `s_`, `p_`, `c_` binders each sorted by
+key, then the Python positional parameters.  A call `self.category_distance(i, c, …, params)` is rendered from the
+signature of the generated `category_distance` of the same class with every non-positional binder passed by name; the
+`params` argument must be the caller's own `params`, unchanged.  A key that is not an identifier, or a binder name that
+clashes with the rendering `<local>_` of a local variable, raises `Unsupported`.
 """
 from __future__ import annotations
 
@@ -50,6 +72,7 @@ EXTRA = {"HypersphereART": ["category_distance"], "EllipsoidART": ["category_dis
 # arguments that are vectors; everything read from params / cache is a scalar
 VECTOR_ARGS = {"i", "w", "centroid", "major_axis", "data", "x", "y"}
 VECTOR_PARAMS = {"sigma_init"}     # hyper-parameters that are vectors
+ATTRS = {"dim_": "N", "dim_original": "N"}     # the attributes of `self` a kernel may read, with their type
 
 
 def find_function(tree: ast.Module, cls: str, fn: str) -> ast.FunctionDef:
@@ -67,13 +90,40 @@ class Ctx:
         self.types: dict[str, str] = {}
         self.params: list[str] = []     # params["k"] read, in order of first use
         self.cache_in: list[str] = []   # cache["k"] read
-        self.uses_dim = False
+        self.attrs: list[str] = []      # self.<attr> read (members of ATTRS)
+        self.assigned: set[str] = set() # local names bound by an assignment
+        self.args: list[str] = []       # the vector parameters of the function
+        self.ksigs: dict = {}           # generated functions of the class: name -> (python parameters, binders, type)
+        self.uses_dim = False           # (the two flags are kept for k2trans, which builds its own binder list)
         self.uses_dim_original = False
         self.uses_sqrt = False
         self.uses_exp = False
         self.uses_allW = False
         self.vec_params: list[str] = []
         self.cache_out: dict[str, tuple[str, str]] = {}
+
+
+    def attr_binder(self, attr: str) -> str:
+        """binder of `self.<attr>`.  The base class keeps the names of before the binder discipline: `k2trans.Ctx`
+        subclasses it and emits its own binders `dim` / `dimOriginal`; ktrans itself translates with `KCtx`."""
+        return {"dim_": "dim", "dim_original": "dimOriginal"}[attr]
+
+
+class KCtx(Ctx):
+    """the context ktrans translates with: `self.<attr>` is the binder `s_<attr>`"""
+
+    def __init__(self, cls, fn, ksigs):
+        super().__init__(cls, fn)
+        self.ksigs = ksigs
+
+    def attr_binder(self, attr: str) -> str:
+        return "s_" + attr
+
+
+def _key(k) -> str:
+    if not isinstance(k, str) or not k.isidentifier():
+        raise Unsupported(f"dictionary key {k!r} is not an identifier")
+    return k
 
 
 def lean_name(s: str) -> str:
@@ -150,10 +200,15 @@ def tr_expr(e: ast.AST, c: Ctx) -> tuple[str, str]:
         return f"(if {cond} then {a} else {b})", ta
     if isinstance(e, ast.Subscript):
         base = e.value
+        if isinstance(base, ast.Attribute) and base.attr in ("params", "cache"):
+            # self.params["k"], self.base_module.params["k"], …: never the dictionary the caller handed in
+            raise Unsupported(f"`{ast.unparse(e)}`: a kernel must read hyper-parameters / cache entries from its "
+                              f"`{base.attr}` argument, not from `{ast.unparse(base)}`")
         if isinstance(base, ast.Name) and base.id == "params":
             k = e.slice.value if isinstance(e.slice, ast.Constant) else None
             if not isinstance(k, str):
                 raise Unsupported("params subscript")
+            _key(k)
             if k in VECTOR_PARAMS:
                 if k not in c.vec_params:
                     c.vec_params.append(k)
@@ -165,6 +220,9 @@ def tr_expr(e: ast.AST, c: Ctx) -> tuple[str, str]:
             k = e.slice.value if isinstance(e.slice, ast.Constant) else None
             if not isinstance(k, str):
                 raise Unsupported("cache subscript")
+            _key(k)
+            if c.types.get("cache") == "C":
+                raise Unsupported("cache read after the function's own `cache = {…}`")
             if k not in c.cache_in:
                 c.cache_in.append(k)
             return "c_" + k, "S"
@@ -208,13 +266,14 @@ def tr_expr(e: ast.AST, c: Ctx) -> tuple[str, str]:
             return f"(List.getD {v} (List.length {v} - {s.operand.value}) 0)", "S"
         raise Unsupported("index form")
     if isinstance(e, ast.Attribute):
-        if isinstance(e.value, ast.Name) and e.value.id == "self":
+        if isinstance(e.value, ast.Name) and e.value.id == "self" and e.attr in ATTRS:
+            if e.attr not in c.attrs:
+                c.attrs.append(e.attr)
             if e.attr == "dim_":
                 c.uses_dim = True
-                return "dim", "N"
             if e.attr == "dim_original":
                 c.uses_dim_original = True
-                return "dimOriginal", "N"
+            return c.attr_binder(e.attr), ATTRS[e.attr]
         raise Unsupported(f"attribute {ast.unparse(e)}")
     if isinstance(e, ast.List):
         parts = [tr_expr(t, c) for t in e.elts]
@@ -240,11 +299,10 @@ def tr_expr(e: ast.AST, c: Ctx) -> tuple[str, str]:
                 c.uses_allW = True
                 return f"(Art.vsum (List.map (fun {vname}_ => {el}) allW))", "S"
             raise Unsupported("generator form")
+        if f == "self.category_distance":
+            return call_generated("category_distance", e, c)
         if f == "np.concatenate":
             args = []
-        elif f == "self.category_distance":
-            # Hypersphere: (i, centroid, radius, params) -> body uses i, centroid;  Ellipsoid: (i, centroid, major_axis, params)
-            args = [tr_expr(a, c) for a in (e.args[:3] if c.cls == "EllipsoidART" else e.args[:2])]
         else:
             args = [tr_expr(a, c) for a in e.args]
         if e.keywords:
@@ -303,19 +361,64 @@ def tr_expr(e: ast.AST, c: Ctx) -> tuple[str, str]:
             if any(t != "V" for _, t in parts):
                 raise Unsupported("np.concatenate of non-vectors")
             return "(" + " ++ ".join(p for p, _ in parts) + ")", "V"
-        if f == "self.category_distance":
-            # -> scalar; a call of the generated definition of the same class
-            c.uses_sqrt = True
-            if c.cls == "EllipsoidART":
-                if "mu" not in c.params:
-                    c.params.append("mu")
-                return f"(category_distance sqrt {lean_name('mu')} {args[0][0]} {args[1][0]} {args[2][0]})", "S"
-            return f"(category_distance sqrt {args[0][0]} {args[1][0]})", "S"
         if f == "np.zeros_like":
             need("V")
             return f"(List.map (fun _ => (0 : α)) {args[0][0]})", "V"
         raise Unsupported(f"call {f}")
     raise Unsupported(f"expression {type(e).__name__}: {ast.unparse(e)}")
+
+
+def call_generated(name: str, e: ast.Call, c: Ctx) -> tuple[str, str]:
+    """`self.<name>(a, b, …, params)` where `<name>` of the same class is already translated: the generated definition
+    applied to the translated positional arguments, every other binder passed by name (and required of the caller)"""
+    if name not in c.ksigs:
+        raise Unsupported(f"call of self.{name}: not translated (yet) in {c.cls}")
+    pyparams, binders, rty = c.ksigs[name]
+    if e.keywords or len(e.args) != len(pyparams) or any(isinstance(a, ast.Starred) for a in e.args):
+        raise Unsupported(f"call of self.{name}: arguments do not match the parameters {pyparams}")
+    pos = []
+    for p, a in zip(pyparams, e.args):
+        if p in ("params", "cache"):
+            if not (isinstance(a, ast.Name) and a.id == p) or c.types.get(p) is not None:
+                raise Unsupported(f"call of self.{name}: `{p}` must be the caller's own `{p}` argument, got `{ast.unparse(a)}`")
+        elif p in VECTOR_ARGS:
+            t, ty = tr_expr(a, c)
+            if ty != "V":
+                raise Unsupported(f"call of self.{name}: argument {p} is not a vector")
+            pos.append(t)
+        # any other parameter has no type in the callee: its body cannot read it (unknown name -> Unsupported)
+    named = []
+    for b, kind, _ in binders:
+        if kind == "arg":
+            continue
+        if kind == "ext":
+            if b == "sqrt":
+                c.uses_sqrt = True
+            elif b == "exp":
+                c.uses_exp = True
+            elif b == "allW":
+                c.uses_allW = True
+            else:
+                raise Unsupported(f"external binder {b}")
+        elif kind == "attr":
+            a = b[2:]
+            if b != c.attr_binder(a):
+                raise Unsupported(f"binder {b}")
+            if a not in c.attrs:
+                c.attrs.append(a)
+        elif kind == "param":
+            if b[2:] not in c.params:
+                c.params.append(b[2:])
+        elif kind == "vparam":
+            if b[2:] not in c.vec_params:
+                c.vec_params.append(b[2:])
+        elif kind == "cache":
+            if b[2:] not in c.cache_in:
+                c.cache_in.append(b[2:])
+        else:
+            raise Unsupported(f"binder kind {kind}")
+        named.append(f"({b} := {b})")
+    return "(" + " ".join([name] + named + pos) + ")", rty
 
 
 def tr_cond(e: ast.AST, c: Ctx) -> str:
@@ -365,8 +468,11 @@ def tr_block(stmts: list[ast.stmt], c: Ctx) -> tuple[str, str]:
                 c.cache_out[k.value] = tr_expr(v, c)
             c.types["cache"] = "C"
             return tr_block(rest, c)
+        if name in ("params", "self") or name in c.args:
+            raise Unsupported(f"re-binding of the argument {name}")
         v, tv = tr_expr(s.value, c)
         c.types[name] = tv
+        c.assigned.add(name)
         body, tb = tr_block(rest, c)
         return f"let {name}_ := {v}\n  {body}", tb
     if isinstance(s, ast.Return):
@@ -387,7 +493,12 @@ def tr_block(stmts: list[ast.stmt], c: Ctx) -> tuple[str, str]:
         # both branches assign the same single name
         if (len(s.body) == 1 and len(s.orelse) == 1 and isinstance(s.body[0], ast.Assign) and isinstance(s.orelse[0], ast.Assign)
                 and ast.unparse(s.body[0].targets[0]) == ast.unparse(s.orelse[0].targets[0])):
+            if not isinstance(s.body[0].targets[0], ast.Name):
+                raise Unsupported("assignment target")
             name = s.body[0].targets[0].id
+            if name in ("params", "self", "cache") or name in c.args:
+                raise Unsupported(f"re-binding of the argument {name}")
+            c.assigned.add(name)
             a, ta = tr_expr(s.body[0].value, c)
             b, tb = tr_expr(s.orelse[0].value, c)
             if ta != tb:
@@ -399,31 +510,41 @@ def tr_block(stmts: list[ast.stmt], c: Ctx) -> tuple[str, str]:
     raise Unsupported(f"statement {type(s).__name__}: {ast.unparse(s)[:60]}")
 
 
-def translate_function(cls: str, fn: str, f: ast.FunctionDef) -> str:
-    c = Ctx(cls, fn)
+def translate_function(cls: str, fn: str, f: ast.FunctionDef, ksigs: dict = None) -> str:
+    """`ksigs` collects the signatures of the functions of the class translated so far (callee before caller)"""
+    ksigs = {} if ksigs is None else ksigs
+    c = KCtx(cls, fn, ksigs)
+    if f.args.vararg or f.args.kwarg or f.args.kwonlyargs or f.args.posonlyargs:
+        raise Unsupported(f"{cls}.{fn}: parameter list")
     vec_args = []
-    for a in f.args.args:
-        if a.arg in VECTOR_ARGS:
-            c.types[a.arg] = "V"
-            vec_args.append(a.arg)
+    pyparams = [a.arg for a in f.args.args if a.arg != "self"]
+    for a in pyparams:
+        if a in VECTOR_ARGS:
+            c.types[a] = "V"
+            vec_args.append(a)
+            c.args.append(a)
     body, ty = tr_block(f.body, c)
+    # binders: (name, kind, Lean type).  Key-derived binders are sorted by key — their order carries no meaning, the
+    # spec passes them by name; only the Python positional parameters (kind "arg") are positional, in signature order.
     binders = []
     if c.uses_sqrt:
-        binders.append("(sqrt : α → α)")
+        binders.append(("sqrt", "ext", "α → α"))
     if c.uses_exp:
-        binders.append("(exp : α → α)")
+        binders.append(("exp", "ext", "α → α"))
     if c.uses_allW:
-        binders.append("(allW : List (List α))")
-    if c.uses_dim:
-        binders.append("(dim : Nat)")
-    if c.uses_dim_original:
-        binders.append("(dimOriginal : Nat)")
-    binders += [f"({lean_name(k)} : α)" for k in c.params]
-    binders += [f"({lean_name(k)} : List α)" for k in c.vec_params]
-    binders += [f"(c_{k} : α)" for k in c.cache_in]
-    binders += [f"({a}_ : List α)" for a in vec_args]
+        binders.append(("allW", "ext", "List (List α)"))
+    binders += [(c.attr_binder(a), "attr", "Nat") for a in sorted(c.attrs)]
+    binders += [(lean_name(k), "vparam" if k in c.vec_params else "param", "List α" if k in c.vec_params else "α")
+                for k in sorted(c.params + c.vec_params)]
+    binders += [("c_" + k, "cache", "α") for k in sorted(c.cache_in)]
+    binders += [(a + "_", "arg", "List α") for a in vec_args]
+    names = [b for b, _, _ in binders]
+    rendered_locals = {n + "_" for n in c.assigned | set(vec_args)}
+    if len(set(names)) != len(names) or rendered_locals & {b for b, k, _ in binders if k != "arg"}:
+        raise Unsupported(f"{cls}.{fn}: a binder name clashes with another binder or with a local variable")
+    ksigs[fn] = (pyparams, binders, ty)
     rty = "α" if ty == "S" else "List α"
-    sig = " ".join(binders)
+    sig = " ".join(f"({b} : {t})" for b, _, t in binders)
     out = [f"/-- generated from `{cls}.{fn}`; arguments: {sig} -/",
            f"def {fn} {sig} : {rty} :=\n  {body}\n"]
     for k, (expr, t) in c.cache_out.items():
@@ -609,9 +730,10 @@ def generate(repo: Path) -> str:
         src = (repo / rel).read_text()
         tree = ast.parse(src)
         chunks += [f"namespace {cls}", "", "variable {α : Type} [Field α] [LinearOrder α] [IsStrictOrderedRing α]", ""]
+        ksigs: dict = {}
         for fn in EXTRA.get(cls, []) + FUNCS:
             f = find_function(tree, cls, fn)
-            chunks.append(translate_function(cls, fn, f))
+            chunks.append(translate_function(cls, fn, f, ksigs))
         chunks += [f"end {cls}", ""]
     chunks.append(generate_logic(repo))
     chunks += ["end Art.Gen", ""]
